@@ -66,18 +66,19 @@ type node struct {
 	dir     string
 	stop    []func()
 	csDone  chan struct{}
+	vsCache map[string]*types.VoteSet
 	probes  []func() // cheap liveness probes, each must return within its deadline
 	pPeer   *p2pmock.Peer
 }
 
 var nopLogger = log.NewNopLogger()
 
-func genesis() (*types.GenesisDoc, []types.PrivValidator) {
+func genesis(nvals int) (*types.GenesisDoc, []types.PrivValidator) {
 	var vals []types.GenesisValidator
 	var pvs []types.PrivValidator
-	for i := 0; i < 4; i++ {
+	for i := 0; i < nvals; i++ {
 		seed := make([]byte, 32)
-		seed[0] = byte(i + 1)
+		seed[0], seed[1] = byte(i+1), byte((i+1)>>8)
 		pk := ed25519.GenPrivKeyFromSecret(seed)
 		pvs = append(pvs, types.NewMockPVWithParams(pk, false, false))
 		vals = append(vals, types.GenesisValidator{PubKey: pk.PubKey(), Power: 10, Name: fmt.Sprint("v", i)})
@@ -104,8 +105,11 @@ func newSwitch(c *tmcfg.Config) *p2p.Switch {
 	return sw
 }
 
-func newNode(kind string, mode string) (n *node, err error) {
-	n = &node{kind: kind}
+func newNode(kind string, mode string, nvals int) (n *node, err error) {
+	if nvals <= 0 {
+		nvals = 4
+	}
+	n = &node{kind: kind, vsCache: map[string]*types.VoteSet{}}
 	dir, e := os.MkdirTemp("", "c17-")
 	if e != nil {
 		return nil, e
@@ -124,7 +128,7 @@ func newNode(kind string, mode string) (n *node, err error) {
 		c.Consensus.TimeoutCommit = time.Millisecond // the node moves on to RoundStepPropose
 	}
 	c.Consensus.SetWalFile(filepath.Join(dir, "data", "cs.wal", "wal"))
-	genDoc, pvs := genesis()
+	genDoc, pvs := genesis(nvals)
 	n.vals = pvs
 	state, e := sm.MakeGenesisState(genDoc)
 	if e != nil {
@@ -378,21 +382,25 @@ func (n *node) gossip(what string) (out string) {
 				continue
 			}
 			for _, t := range []tmproto.SignedMsgType{tmproto.PrevoteType, tmproto.PrecommitType} {
-				vs := types.NewVoteSet("c17-chain", prs.Height, round, t, n.state.Validators)
-				for i, pv := range n.vals {
-					pk, _ := pv.GetPubKey()
-					idx, _ := n.state.Validators.GetByAddress(pk.Address())
-					v := &types.Vote{Type: t, Height: prs.Height, Round: round, Timestamp: time.Unix(1600000001, 0).UTC(),
-						ValidatorAddress: pk.Address(), ValidatorIndex: idx}
-					pb := v.ToProto()
-					if err := pv.SignVote("c17-chain", pb); err != nil {
-						return "sign-error"
+				key := fmt.Sprintf("%d/%d/%d", prs.Height, round, t)
+				vs := n.vsCache[key]
+				if vs == nil {
+					vs = types.NewVoteSet("c17-chain", prs.Height, round, t, n.state.Validators)
+					for _, pv := range n.vals {
+						pk, _ := pv.GetPubKey()
+						idx, _ := n.state.Validators.GetByAddress(pk.Address())
+						v := &types.Vote{Type: t, Height: prs.Height, Round: round, Timestamp: time.Unix(1600000001, 0).UTC(),
+							ValidatorAddress: pk.Address(), ValidatorIndex: idx}
+						pb := v.ToProto()
+						if err := pv.SignVote("c17-chain", pb); err != nil {
+							return "sign-error"
+						}
+						v.Signature = pb.Signature
+						if _, err := vs.AddVote(v); err != nil {
+							return "addvote-error:" + err.Error()
+						}
 					}
-					v.Signature = pb.Signature
-					if _, err := vs.AddVote(v); err != nil {
-						return "addvote-error:" + err.Error()
-					}
-					_ = i
+					n.vsCache[key] = vs
 				}
 				for k := 0; k < 6; k++ {
 					ps.PickSendVote(vs)
@@ -601,6 +609,7 @@ func (n *node) health() string {
 func execReactor(c core.Case) []string {
 	var out []string
 	var n *node
+	crashed := false
 	defer func() {
 		if n != nil {
 			n.close()
@@ -613,13 +622,19 @@ func execReactor(c core.Case) []string {
 			out = append(out, "bad-op")
 			continue
 		}
+		if crashed && verb != "reactor" {
+			// a panic outside any recover kills the node process: nothing after it happens
+			out = append(out, "process-dead")
+			continue
+		}
 		switch verb {
 		case "reactor":
+			crashed = false
 			if n != nil {
 				n.close()
 			}
 			var err error
-			n, err = newNode(m["kind"], m["mode"])
+			n, err = newNode(m["kind"], m["mode"], atoi(m["vals"]))
 			if err != nil {
 				n = nil
 				out = append(out, "setup-error:"+err.Error())
@@ -633,7 +648,13 @@ func execReactor(c core.Case) []string {
 			}
 			out = append(out, o)
 		case "gossip":
-			out = append(out, n.gossip(m["what"])+" "+n.prsLine())
+			g := n.gossip(m["what"])
+			if strings.HasPrefix(g, "PANIC-outside-recover") {
+				crashed = true
+				out = append(out, g)
+				continue
+			}
+			out = append(out, g+" "+n.prsLine())
 		case "health":
 			out = append(out, n.health())
 		case "flood":
@@ -862,12 +883,13 @@ func bstr(b *tmbits.BitArray) string {
 
 func genConsensusCase(r *rand.Rand) []string {
 	mode := []string{"newheight", "propose"}[r.Intn(2)]
-	n, err := newNode("consensus", mode)
+	nvals := []int{4, 4, 4, 65, 100, 129}[r.Intn(6)] // more than 64: the node's bit arrays span several words
+	n, err := newNode("consensus", mode, nvals)
 	if err != nil {
 		panic(err)
 	}
 	defer n.close()
-	g := &rgen{n: n, ops: []string{"reactor kind=consensus mode=" + mode}}
+	g := &rgen{n: n, ops: []string{fmt.Sprintf("reactor kind=consensus mode=%s vals=%d", mode, nvals)}}
 	steps := 3 + r.Intn(10)
 	height := int64(1)
 	round := int32(0)
@@ -877,7 +899,7 @@ func genConsensusCase(r *rand.Rand) []string {
 	}
 	for i := 0; i < steps; i++ {
 		var v string
-		switch r.Intn(15) {
+		switch r.Intn(17) {
 		case 0, 1: // NewRoundStep (mostly plausible so that the peer state moves)
 			m := &tmcons.NewRoundStep{Height: height, Round: round, Step: uint32(1 + r.Intn(8)), SecondsSinceStartTime: int64(r.Intn(10)), LastCommitRound: -1}
 			if r.Intn(3) == 0 {
@@ -1052,6 +1074,30 @@ func genConsensusCase(r *rand.Rand) []string {
 				}
 			}
 			height, round = 1, 0
+		case 15, 16: // proposal with a POL round, then a POL bit array of another size than the validator set
+			rr := int32(1 + r.Intn(2))
+			m0 := &tmcons.NewRoundStep{Height: 1, Round: rr, Step: 1, LastCommitRound: -1}
+			v = g.msg(0x20, "newroundstep", fmt.Sprintf("h=%d r=%d s=%d lcr=%d ", m0.Height, m0.Round, m0.Step, m0.LastCommitRound), consMsg(m0))
+			if v != "ok" {
+				break
+			}
+			bid := blockID(r, true)
+			pm := &tmcons.Proposal{Proposal: tmproto.Proposal{Type: tmproto.ProposalType, Height: 1, Round: rr, PolRound: 0,
+				BlockID: bid, Timestamp: time.Unix(1600000002, 0).UTC(), Signature: rbytes(r, 64)}}
+			v = g.msg(0x21, "opaque-proposal", fmt.Sprintf("h=%d r=%d polr=%d total=%d ", pm.Proposal.Height, pm.Proposal.Round, pm.Proposal.PolRound, pm.Proposal.BlockID.PartSetHeader.Total), consMsg(pm))
+			if v != "ok" {
+				break
+			}
+			nb := []int{1, 3, 64, 65, nvals - 1, nvals, nvals + 1, 200}[r.Intn(8)]
+			if nb < 1 {
+				nb = 1
+			}
+			pol := &tmcons.ProposalPOL{Height: 1, ProposalPolRound: 0, ProposalPol: *goodBits(r, nb)}
+			v = g.msg(0x21, "proposalpol", fmt.Sprintf("h=%d polr=%d %s", pol.Height, pol.ProposalPolRound, bstr(&pol.ProposalPol)), consMsg(pol))
+			if v == "ok" {
+				g.gossip("vote")
+			}
+			height, round = 1, rr
 		case 12: // garbage bytes on a random consensus channel
 			b := make([]byte, r.Intn(40))
 			r.Read(b)
@@ -1059,6 +1105,11 @@ func genConsensusCase(r *rand.Rand) []string {
 		}
 		if v != "ok" {
 			break
+		}
+		// what the gossip goroutines do next with the peer state this message left behind
+		if nvals > 64 || r.Intn(3) == 0 {
+			g.gossip("vote")
+			g.gossip("part")
 		}
 	}
 	g.ops = append(g.ops, "health")
@@ -1073,7 +1124,7 @@ func (p *merkleProof) proto(r *rand.Rand) *tmcrypto.Proof {
 
 // other reactors: garbage and a few decodable hostile messages per reactor
 func genOtherCase(r *rand.Rand, kind string) []string {
-	n, err := newNode(kind, "")
+	n, err := newNode(kind, "", 0)
 	if err != nil {
 		panic(err)
 	}
